@@ -156,19 +156,27 @@ func (dd *Document) addMethod(service *client_j5pb.Service, method *client_j5pb.
 		}
 	}
 
-	responseSchema, err := convertObjectItem(method.ResponseBody)
-	if err != nil {
-		return fmt.Errorf("response body: %w", err)
-	}
-	operation.Responses = &ResponseSet{{
-		Code:        200,
-		Description: "OK",
-		Content: OperationContent{
-			JSON: &OperationSchema{
-				Schema: responseSchema,
+	if method.ResponseBody != nil {
+		responseSchema, err := convertObjectItem(method.ResponseBody)
+		if err != nil {
+			return fmt.Errorf("response body: %w", err)
+		}
+		operation.Responses = &ResponseSet{{
+			Code:        200,
+			Description: "OK",
+			Content: OperationContent{
+				JSON: &OperationSchema{
+					Schema: responseSchema,
+				},
 			},
-		},
-	}}
+		}}
+	} else {
+		// a raw http response (google.api.HttpBody), no JSON schema
+		operation.Responses = &ResponseSet{{
+			Code:        200,
+			Description: "OK",
+		}}
+	}
 
 	found := false
 	for _, pathItem := range dd.Paths {
